@@ -290,18 +290,36 @@ def run_real(path, root_hex, pre_root_hex=None, pre=()):
     return {"outcome": "loaded", "err": "", "res": out}
 
 
+def root_hex_for(ch, enc):
+    """The root key this chain is validated against (the right one, or the stranger's after a wrong_root),
+    in the requested encoding."""
+    key = ch.keys["x"] if ch.root_sym == "k_x" else ch.keys["root"]
+    return key.pub33.hex() if enc == "compressed" else key.hex
+
+
 def execute(job):
     """Worker entry: job = (plan, scratch dir) -> trace record (without id)."""
     plan, scratch = job
     ch = build_plan(plan)
     path = os.path.join(scratch, "c06_%d.json" % os.getpid())
     ch.dump(path)
-    obs = run_real(path, ch.root_hex)
+    # the ENCODING in which the root key is handed to HSMCertificateRoot is an environment choice: the
+    # same key, uncompressed (04 X Y) or compressed (02/03 X); the verdicts are those of that key
+    enc = plan.get("rootenc", "uncompressed")
+    right = root_hex_for(ch, enc)
+    obs = run_real(path, right)
     t = trace_of(ch, obs)
+    t["rootenc"] = enc
+    if enc != "uncompressed":
+        # (and once more the plain way, for the re-query comparisons below)
+        plain = run_real(path, ch.root_hex)
+        if plain != obs:
+            t.setdefault("more", []).append(dict(trace_of(ch, plain), rootenc="uncompressed"))
     # same question put to an object that was first asked about the other root (the stranger's key when
     # the chain is asked about its own root, and vice versa): a different answer is judged as well
     alt = ch.keys["x"].hex if ch.root_hex == ch.keys["root"].hex else ch.keys["root"].hex
     obs2 = run_real(path, ch.root_hex, pre_root_hex=alt)
+    obs = run_real(path, ch.root_hex) if enc != "uncompressed" else obs
     if obs2 != obs:
         t["also"] = trace_of(ch, obs2)
     # ... and to an object that has already answered this very question (once, twice): validation must
